@@ -60,6 +60,73 @@ def MemberCountIs.contains (r : MemberCountIs) (x : Nat) : Bool :=
     | .excluded e => decide (x < e)
     | .unbounded => true)
 
+/-! ### `RoomMemberCountIs` as a string (`FromStr`, `Display`; the form it has in JSON) -/
+
+/-- `u64::MAX`. -/
+def u64Max : Nat := 18446744073709551615
+/-- `js_int::MAX_SAFE_UINT` = 2^53 − 1. -/
+def maxSafeUInt : Nat := 9007199254740991
+
+/-- `(c as char).to_digit(10)`. -/
+def digitVal (c : Char) : Option Nat :=
+  if '0' ≤ c ∧ c ≤ '9' then some (c.toNat - 48) else none
+
+/-- The digit loop of `u64::from_str_radix(_, 10)` (`result * 10 + digit`, failing on the first
+character that is not an ASCII digit), without the overflow test, which `parseU64` applies to the
+unbounded result. -/
+def parseDigits (acc : Nat) : Text → Option Nat
+  | [] => some acc
+  | c :: t =>
+    match digitVal c with
+    | some d => parseDigits (acc * 10 + d) t
+    | none => none
+
+/-- `u64::from_str`: empty → error; a lone `+` or `-` → error; one leading `+` is skipped (`-` is
+not, the type is unsigned, so it is an invalid digit); then decimal digits only; overflow → error. -/
+def parseU64 (s : Text) : Option Nat :=
+  match s with
+  | [] => none
+  | [c] => if c = '+' ∨ c = '-' then none else parseDigits 0 [c]
+  | c :: c' :: rest =>
+    let digits := if c = '+' then c' :: rest else c :: c' :: rest
+    match parseDigits 0 digits with
+    | some v => if v ≤ u64Max then some v else none
+    | none => none
+
+/-- `js_int::UInt::from_str`: `u64::from_str`, then `val > MAX_SAFE_UINT` → error. -/
+def parseUInt (s : Text) : Option Nat :=
+  match parseU64 s with
+  | some v => if v > maxSafeUInt then none else some v
+  | none => none
+
+/-- `impl FromStr for RoomMemberCountIs`: the prefix tests in the order of the `match` arms
+(`<=`, `<`, `>=`, `>`, `==`, none), then `UInt::from_str` on the rest. -/
+def MemberCountIs.fromStr (s : Text) : Option MemberCountIs :=
+  let (op, countStr) :=
+    if "<=".toList.isPrefixOf s then (CmpOp.le, s.drop 2)
+    else if "<".toList.isPrefixOf s then (CmpOp.lt, s.drop 1)
+    else if ">=".toList.isPrefixOf s then (CmpOp.ge, s.drop 2)
+    else if ">".toList.isPrefixOf s then (CmpOp.gt, s.drop 1)
+    else if "==".toList.isPrefixOf s then (CmpOp.eq, s.drop 2)
+    else (CmpOp.eq, s)
+  match parseUInt countStr with
+  | some n => some ⟨op, n⟩
+  | none => none
+
+/-- `impl Display for RoomMemberCountIs` (`Eq` is written without prefix). -/
+def MemberCountIs.display (r : MemberCountIs) : Text :=
+  (match r.prefix_ with
+    | .eq => []
+    | .lt => "<".toList
+    | .gt => ">".toList
+    | .ge => ">=".toList
+    | .le => "<=".toList) ++ Nat.toDigits 10 r.count
+
+/-- The `room_member_count` condition as it arrives in JSON with `is = s`, evaluated for a room of
+`x` members: `none` = the condition fails to deserialize. -/
+def memberCountStr (s : Text) (x : Nat) : Option Bool :=
+  (MemberCountIs.fromStr s).map (·.contains x)
+
 /-- `PushCondition`. -/
 inductive Cond where
   | eventMatch (key pattern : Text)
